@@ -48,6 +48,16 @@ def idl_names(res, maxlen, tag="names"):
     return r.replay
 
 
+def idl_words(res, maxlen):
+    cfg = write_cfg(os.path.join(res.wd, "MC_IdlWords.cfg"), constants=dict(IDL_BUGS_OFF, MaxLen=maxlen, Emit=True),
+                    invariants=["WordSane", "EmitCase"])
+    r = run_tlc("MC_IdlWords", cfg, res.wd, workers=8, tag="idl-words", timeout=1800)
+    res.add_tlc(r)
+    if r.violation:
+        res.tlc_violation(r, "MC_IdlWords")
+    return r.replay
+
+
 def idl_tokens(res, baseset="full", tag="tokens"):
     cfg = write_cfg(os.path.join(res.wd, "MC_IdlTokens_%s.cfg" % tag), constants=dict(IDL_BUGS_OFF, Emit=True, BaseSet=baseset),
                     invariants=["BasesAccepted", "EmitCase"])
@@ -82,6 +92,13 @@ def check_C11(tier):
     res.evaluations += summ["executions"]
     res.extra["names"] = len(names)
     res.extra["names_dontcare"] = summ.get("dontcare", 0)
+    # (1b) field names / enum elements / member names: all strings over their character classes, in every position
+    words = idl_words(res, 6 if thorough else 5)
+    fails, summ, _ = run_vh_parallel(vh, ["idlwords"], words)
+    res.add_failures(fails, "words")
+    res.traces += summ["executions"]
+    res.evaluations += summ["executions"]
+    res.extra["words"] = len(words)
     # (2) token strings with an error budget of one
     toks = idl_tokens(res)
     fails, summ, _ = run_vh_parallel(vh, ["idltok", "--tier=" + tier], toks)
